@@ -34,6 +34,10 @@ def make_app(loop, obs: Obs, behaviours: list, tick=0.001, client_max_size=1024 
                "version": (request.version.major, request.version.minor),
                "body": None, "error": None, "pre_error": request.pre_handler_error is not None,
                "chunks": None}
+        # how many bytes the server had written on this connection when the call began (simulated
+        # transports only): everything from here to the next call's mark is this request's output
+        _tr = getattr(request, "transport", None)
+        rec["out0"] = getattr(getattr(_tr, "out", None), "written", None)
         obs.seen.append(rec)
         obs.handler_started += 1
         obs.handler_running += 1
@@ -120,6 +124,7 @@ def make_app(loop, obs: Obs, behaviours: list, tick=0.001, client_max_size=1024 
             if arg == "cl":
                 resp.content_length = 6
             await resp.prepare(request)
+            rec["started"] = "none"
             for piece in (b"ab", b"cd", b"ef"):
                 await resp.write(piece)
                 await asyncio.sleep(tick)
@@ -128,8 +133,40 @@ def make_app(loop, obs: Obs, behaviours: list, tick=0.001, client_max_size=1024 
         if kind == "write_then_raise":
             resp = web.StreamResponse(headers=hdr)
             await resp.prepare(request)
+            rec["started"] = "exc"
             await resp.write(b"partial")
             raise RuntimeError("after partial write %d" % n)
+        if kind == "fail_after":
+            # the handler starts a streamed response, gets as far as <stage>, and then ends in way <how>:
+            # fail_after:<stage>-<how>; stage in prepare / write / clwrite (Content-Length announced, body
+            # short) / pause (written, then a suspension point) / eof (response completed); how in none /
+            # exc / timeout / realtimeout / cancelled / http403 / nonresp
+            stage, _, how = arg.partition("-")
+            resp = web.StreamResponse(headers=hdr)
+            if stage == "clwrite":
+                resp.content_length = 20
+            await resp.prepare(request)
+            rec["started"] = how
+            if stage != "prepare":
+                await resp.write(b"partial")
+            if stage == "pause":
+                await asyncio.sleep(tick)
+            if stage == "eof":
+                await resp.write_eof()
+            if how == "exc":
+                raise RuntimeError("after response start %d" % n)
+            if how == "timeout":
+                raise asyncio.TimeoutError()
+            if how == "realtimeout":
+                async with asyncio.timeout(3 * tick):
+                    await asyncio.sleep(3600)
+            if how == "cancelled":
+                raise asyncio.CancelledError()
+            if how == "http403":
+                raise web.HTTPForbidden(headers=hdr)
+            if how == "nonresp":
+                return "not a response"
+            return resp
         if kind == "lazy":
             # touch lazily parsed attributes: none of them may take the connection down
             for name in ("url", "host", "scheme", "query", "cookies", "content_type", "charset",
